@@ -2,7 +2,11 @@
 
 package main
 
-import cm "zombiezen.com/go/commonmark"
+import (
+	"bytes"
+
+	cm "zombiezen.com/go/commonmark"
+)
 
 // inputClasses are the decidable input classes that known_findings.jsonl may refer to.
 // A class must be narrow: it describes the inputs reaching one root cause, never a property.
@@ -11,6 +15,43 @@ var inputClasses = map[string]func(input []byte) bool{
 	"setext-heading-root-after-definition": setextRootAfterDefinition,
 	"root-block-above-streaming-limit":     rootAboveStreamingLimit,
 	"label-at-999-limit-across-lines":      labelAtLimitAcrossLines,
+	"multi-line-inline-in-container":       multiLineInlineInContainer,
+}
+
+// multiLineInlineInContainer: some inline node that Format copies verbatim from the source (everything but links, text
+// and the parts of links: emphasis, strong, code spans, images, raw HTML tags, autolinks) spans a line ending while its
+// paragraph sits inside a block quote or list item - so that the copied bytes include the container's prefix.
+func multiLineInlineInContainer(doc []byte) bool {
+	res := parseMem(doc)
+	found := false
+	for _, r := range res.roots {
+		src := r.Source
+		var walk func(n cm.Node, inContainer bool)
+		walk = func(n cm.Node, inContainer bool) {
+			if found {
+				return
+			}
+			if b := n.Block(); b != nil {
+				if b.Kind() == cm.BlockQuoteKind || b.Kind() == cm.ListItemKind {
+					inContainer = true
+				}
+			} else if in := n.Inline(); in != nil && inContainer {
+				switch in.Kind() {
+				case cm.EmphasisKind, cm.StrongKind, cm.CodeSpanKind, cm.ImageKind, cm.HTMLTagKind, cm.AutolinkKind:
+					sp := in.Span()
+					if sp.IsValid() && sp.End <= len(src) && bytes.ContainsAny(src[sp.Start:sp.End], "\r\n") {
+						found = true
+						return
+					}
+				}
+			}
+			for i, k := 0, n.ChildCount(); i < k; i++ {
+				walk(n.Child(i), inContainer)
+			}
+		}
+		walk(r.AsNode(), false)
+	}
+	return found
 }
 
 // labelAtLimitAcrossLines: the document has a bracketed run `[...]` without inner brackets that spans n >= 1 line
